@@ -1,7 +1,7 @@
 (* Property C18 -- data URL views are coherent and reassemble the original.  Statements only. *)
 From Coq Require Import List NArith Bool Arith.
 Import ListNotations.
-Require Import V.Regex V.Parse V.DataUrl V.DataUrlProofs V.DataUrlProofs2.
+Require Import V.Regex V.Abnf V.Parse V.ParseProofs V.Parse2 V.BridgePaths V.C02Bridge V.C02Proofs V.DataUrl V.DataUrlProofs V.DataUrlProofs2 V.C18Uri.
 Local Open Scope nat_scope.
 
 (* whenever the delimiter parser accepts a text (what both constructors run after the URI validator), the
@@ -52,6 +52,15 @@ Theorem C18_decomposition_unique : forall media (b : bool) data media' (b' : boo
   media = media' /\ b = b' /\ data = data'.
 Proof. exact dataurl_unique. Qed.
 Print Assumptions C18_decomposition_unique.
+
+(* TIED TO THE URI VIEW (C02): a data URL is a URI (both constructors run the URI validator first); on every text that the
+   URI grammar and the delimiter parser both accept, the generic decomposition reports the scheme component "data" at
+   bytes 0..4, i.e. the data-URL view and the Uri view of the same text agree on where the scheme ends *)
+Theorem C18_scheme_is_data : forall u d, dparse u = Some d -> L (IRI U U) u ->
+  exists p, valid_parts_U p /\ decomposition_ok u p /\ p_scheme p = Some DATA_SCHEME /\
+    scheme_range u 0 = (0, 4) /\ slice u (scheme_range u 0) = DATA_SCHEME.
+Proof. exact dataurl_scheme. Qed.
+Print Assumptions C18_scheme_is_data.
 
 Example C18_example :   (* data:a/b;base64,QQ== *)
   dparse [100;97;116;97;58;97;47;98;59;98;97;115;101;54;52;44;81;81;61;61]%N = Some (8, true, 16)
